@@ -37,7 +37,8 @@ pub struct World {
 }
 
 impl World {
-    pub fn new(seed: u64, scenes: &[u64], nobj: usize, rotated: bool, spread: f32, fast: bool) -> World {
+    pub fn new(seed: u64, scenes: &[u64], nobj: usize, rotated: bool, spread: f32, jump: f32) -> World {
+        let fast = jump > 0.0;
         let mut rng = StdRng::seed_from_u64(seed);
         let mut sc = vec![];
         for s in scenes {
@@ -49,7 +50,7 @@ impl World {
                 let (cx, cy) = (400.0, 400.0);
                 let x = cx + r * a.cos();
                 let y = cy + r * a.sin();
-                let speed = if fast { rng.gen_range(8.0..28.0) } else { rng.gen_range(2.0..7.0) };
+                let speed = if fast { rng.gen_range(8.0..28.0) * jump } else { rng.gen_range(2.0..7.0) };
                 let tx = cx + rng.gen_range(-40.0..40.0);
                 let ty = cy + rng.gen_range(-40.0..40.0);
                 let d = ((tx - x).powi(2) + (ty - y).powi(2)).sqrt().max(1.0);
@@ -294,8 +295,9 @@ pub enum Call {
     SetAw(usize),
 }
 
-pub fn history(seed: u64, steps: usize, scenes: &[u64], nobj: usize, rotated: bool, lifecycle: bool, spread: f32, crafted: bool, fast: bool) -> Vec<Call> {
-    let mut world = World::new(seed, scenes, nobj, rotated, spread, fast);
+pub fn history(seed: u64, steps: usize, scenes: &[u64], nobj: usize, rotated: bool, lifecycle: bool, spread: f32, crafted: bool, jump: f32) -> Vec<Call> {
+    // jump: 0 = slow objects; k > 0 = fast objects (8..28 px per step, times k) that also change size abruptly
+    let mut world = World::new(seed, scenes, nobj, rotated, spread, jump);
     let mut rng = StdRng::seed_from_u64(seed ^ 0x5eed);
     let mut calls = vec![];
     let mut crafted_k = 0usize;
@@ -412,7 +414,7 @@ pub fn main(opts: &Opts) {
     let steps = opts.usize("steps", 120);
     let scenes: Vec<u64> = opts.str("scenes", "0,7").split(',').map(|x| x.parse().unwrap()).collect();
     let nobj = opts.usize("objects", 3);
-    let calls = history(seed, steps, &scenes, nobj, opts.get("rotated").is_some(), opts.get("no-lifecycle").is_none(), opts.f64("spread", 160.0) as f32, opts.get("crafted").is_some(), opts.get("jump").is_some());
+    let calls = history(seed, steps, &scenes, nobj, opts.get("rotated").is_some(), opts.get("no-lifecycle").is_none(), opts.f64("spread", 160.0) as f32, opts.get("crafted").is_some(), opts.f64("jump", 0.0) as f32);
     let only = opts.get("only-scene").map(|s| s.parse::<u64>().unwrap());
     let delay_ctl = if opts.u64("delay-us", 0) > 0 {
         let c = crate::gates::Ctl::install();
